@@ -364,6 +364,46 @@ void sexp_conservative_mark (sexp ctx) {
 #endif
 
 #if SEXP_USE_WEAK_REFERENCES
+/* An ephemeron keeps its value alive for as long as its key is alive. */
+/* The marker does not trace through ephemerons, so after the main mark */
+/* phase mark the values of all live ephemerons whose keys are live, */
+/* repeating until nothing more gets marked (a value may be what keeps */
+/* the key of another ephemeron alive). */
+void sexp_mark_ephemeron_values(sexp ctx) {
+  int changed;
+  sexp_heap h;
+  sexp p, end, key, value;
+  sexp_free_list q, r;
+  if (sexp_not(sexp_global(ctx, SEXP_G_WEAK_OBJECTS_PRESENT)))
+    return;
+  do {
+    changed = 0;
+    for (h = sexp_context_heap(ctx) ; h; h=h->next) {
+      p = sexp_heap_first_block(h);
+      q = h->free_list;
+      end = sexp_heap_end(h);
+      while (p < end) {
+        for (r=q->next; r && ((char*)r<(char*)p); q=r, r=r->next)
+          ;
+        if ((char*)r == (char*)p) { /* this is a free block, skip it */
+          p = (sexp) (((char*)p) + r->size);
+          continue;
+        }
+        if (sexp_valid_object_p(ctx, p) && sexp_markedp(p) && sexp_ephemeronp(p)) {
+          key = sexp_ephemeron_key(p);
+          value = sexp_ephemeron_value(p);
+          if (value && sexp_pointerp(value) && ! sexp_markedp(value)
+              && (! (key && sexp_pointerp(key)) || sexp_markedp(key))) {
+            sexp_mark(ctx, value);
+            changed = 1;
+          }
+        }
+        p = (sexp) (((char*)p)+sexp_heap_align(sexp_allocated_bytes(ctx, p)));
+      }
+    }
+  } while (changed);
+}
+
 int sexp_reset_weak_references(sexp ctx) {
   int i, len, broke, all_reset_p;
   sexp_heap h;
@@ -413,6 +453,7 @@ int sexp_reset_weak_references(sexp ctx) {
   return broke;
 }
 #else
+#define sexp_mark_ephemeron_values(ctx)
 #define sexp_reset_weak_references(ctx) 0
 #endif
 
@@ -562,6 +603,7 @@ sexp sexp_gc (sexp ctx, size_t *sum_freed) {
   sexp_mark_global_symbols(ctx);
   sexp_mark(ctx, ctx);
   sexp_conservative_mark(ctx);
+  sexp_mark_ephemeron_values(ctx);
   sexp_reset_weak_references(ctx);
   finalized = sexp_finalize(ctx);
   res = sexp_sweep(ctx, sum_freed);
